@@ -30,7 +30,9 @@
      (top_next) is at most MAX_TASK_STACK_SIZE - the task stack of a tree computation holds pairwise distinct
      futures, so it cannot be longer (C08_tree_stack_bound).  C01_guard_alternative_is_real: both cases occur
      (c01_demo with MAX_TASK_STACK_SIZE = 1000 resp. 1, where the outcome is the guard's RuntimeError).
-     For [stree] programs (synchronous calls) no_unwind is still a hypothesis.
+     C01_async_eq_seq_stree_unless_guard: the "unless the guard fired" form also for [stree] programs (there the
+     RuntimeError may be caught by the caller of a synchronous call and the run go on; nothing is claimed
+     about the outcome then).  No "few futures" theorem for stree programs.
 
    NOT PROVED (statement kept at the end of the file): programs with stored handles - a future created by
    Let and awaited later or twice (DAGs), LOld leaves, value() on an already existing future (including a
@@ -185,6 +187,16 @@ Theorem C01_stree_hypotheses_satisfiable :
      EvDone [0] (Ok (VTuple [VTuple [VTuple [VInt 7; VInt 3]; VInt 1]; VInt 5]))].
 Proof. exact (conj c01s_demo_stree c01s_demo_runs). Qed.
 Print Assumptions C01_stree_hypotheses_satisfiable.
+
+(* without the hypothesis no_unwind (proofs/MachineNoUnwind.v) *)
+Theorem C01_async_eq_seq_stree_unless_guard : forall P p n o,
+  pointwise P -> stree p ->
+  let h := fst (create [] (FTask p) (st0 P)) in
+  let s1 := snd (create [] (FTask p) (st0 P)) in
+  c_mode (run P n (start h s1)) = MDone o ->
+  o = evals p \/ exists k, (k < n)%nat /\ guard_fires P (run P k (start h s1)) = true.
+Proof. exact (fun P p n o HP Ht => async_eq_seq_stree_unless_guard P HP p Ht n o). Qed.
+Print Assumptions C01_async_eq_seq_stree_unless_guard.
 
 (* The general statement (any program, including stored handles / DAGs, value() on existing futures and reads
    of scoped state) is not proved: a sequential reference for those needs an environment of handles and, for
